@@ -353,10 +353,8 @@ func ruleR03_6(c *Check) {
 		}
 		// the early `len(reqs)==0` return has nothing to acknowledge
 		for _, g := range w.Guards(fn, rs) {
-			if b, ok := g.Cond.(*ast.BinaryExpr); ok && b.Op == token.EQL && g.Val {
-				if v, ok := w.constInt(b.Y); ok && v == 0 {
-					return false
-				}
+			if eqOf(g, true, func(e ast.Expr) bool { return true }, w.isConst(0)) {
+				return false
 			}
 		}
 		return true
@@ -836,7 +834,7 @@ func ruleR27_1(c *Check) {
 	for _, s := range m.Sites(selStore(dw)) {
 		okv := false
 		for _, g := range w.Guards(m, s) {
-			if b, ok := g.Cond.(*ast.BinaryExpr); ok && b.Op == token.NEQ && g.Val && w.fieldOf(b.X) == ver && w.fieldOf(b.Y) == ver {
+			if eqOf(g, false, w.isField(ver), w.isField(ver)) {
 				okv = true
 			}
 		}
